@@ -93,6 +93,22 @@ def mutations(t):
                     ops3 = list(n3.operands)
                     n3.operands = tuple(ops3[:-1] + [ops3[0]])
                     out.append(("first-operand-object-also-last", c3, False))
+                if kind == "dup":
+                    # an operand that is an operation of the same class, spliced into its parent / the first two operands wrapped in one
+                    for j, o in enumerate(ops):
+                        if type(o) is type(n) and len(o.operands) >= 1:
+                            c2 = deep(t)
+                            n2 = list(gen.nodes(c2))[i]
+                            ops2 = list(n2.operands)
+                            n2.operands = tuple(ops2[:j] + list(ops2[j].operands) + ops2[j + 1:])
+                            out.append(("nested-same-class-operation-spliced", c2, False))
+                            break
+                    if len(ops) >= 2:
+                        c2 = deep(t)
+                        n2 = list(gen.nodes(c2))[i]
+                        ops2 = list(n2.operands)
+                        n2.operands = tuple([type(n2)(ops2[0], ops2[1])] + ops2[2:])
+                        out.append(("first-two-operands-wrapped-in-the-same-class", c2, False))
                 if kind == "swap" and len(ops) >= 2:
                     # the same nodes in the same reading order, bracketed differently: the operand after ops[j] moves to the end of the
                     # operation found at the right edge of ops[j] (and back)
@@ -144,6 +160,9 @@ def odd_trees():
         T.UnknownOperation(T.Boost(T.Group(T.UnknownOperation(w("a"), w("b"))), 2), T.Not(T.UnknownOperation(w("c"), w("d")))),
         T.AndOperation(w("a"), T.OrOperation(w("b"), w("c")), w("d")), T.AndOperation(w("a"), T.Group(T.OrOperation(w("b"), w("c"), w("d")))),
         T.OrOperation(T.AndOperation(T.Not(T.OrOperation(w("a"), w("b"))), w("c")), w("d")),
+        T.Range(w("*"), w("5")), T.Range(w("1"), w("*"), False, False), T.Range(w("*"), w("*"), True, False), T.SearchField("f", T.Range(w("*"), w("b*"))),
+        T.AndOperation(T.AndOperation(w("a"), w("b")), w("c"), w("d")), T.OrOperation(w("a"), T.OrOperation(w("b"), T.OrOperation(w("c"), w("d")))),
+        T.UnknownOperation(T.UnknownOperation(w("a"))), T.BoolOperation(T.BoolOperation(T.Plus(w("a")), w("b")), T.Prohibit(w("c"))),
         (lambda x: T.OrOperation(x, x))(w("x")), (lambda g: T.AndOperation(g, T.Not(g), w("y")))(T.Group(T.OrOperation(w("a"), w("b")))),
     ]
 
